@@ -20,6 +20,8 @@ CLAIMS = {
          "All interleavings of Begin/Set/Delete/Commit/Rollback/GC over <=2-3 transactions of all levels up to the stated depth are enumerated; after every step every open reader reads every key and GetKeys in the real code and must return what the L0 promise says.", "6 C02"),
  "C03": ("TLC model checking of FsDb.tla (CommitAsPromised, Refines) + replay of emitted behaviours containing Commit/Rollback",
          "Commit result class and the autocommit read matrix after every Commit/Rollback are compared with the promise on all enumerated histories with overlapping write sets.", "6 C03"),
+ "C04": ("TLC invariants on FsDbCrash.tla (one step per persistent mutation, kill before any of them, also inside recovery, two kills) + every emitted workload executed in child processes killed by SIGKILL before every mutation, recovered state compared with acknowledged prefix +- whole in-flight call",
+         "All workloads of 3-5 calls (autocommit and transactional Set/Delete, multi-key Commit, Rollback, collector) are enumerated by TLC; the real code is killed before each of its persistent mutations (file create/write/close/remove, mkdir, Badger set/delete/transaction), reopened in fresh processes twice, and killed again inside recovery; the mutation labels logged by the real code must be the specification's.", "6 C04"),
  "C05": ("TLC model checking of Reopen.tla (instances x processes x sequence counter) and FsDb.tla with Close/Open at every position + replay in real OS processes",
          "Every script of open/close/write/delete/new-process over 1-2 database instances up to the stated length is enumerated by TLC and executed in fresh child processes over the same directories; in-process Close/Open is inserted at every position of transactional histories.", "6 C05"),
  "C06": ("controlled-scheduler executions of the real code (all schedules up to a preemption bound + seeded random) validated by TLC against LinTrace.tla: linearizability w.r.t. the L0 promise; deadlock = all actors blocked",
